@@ -253,7 +253,7 @@ fn pointers(pm: &ProjectManager, ws: &Workspace) -> Vec<String> {
                     None => "-".to_string(),
                     Some(p) => match p.try_lock() {
                         Err(_) => "locked".to_string(),
-                        Ok(p) => p.get_class().unwrap_or_default().to_uppercase(),
+                        Ok(p) => p.get_class().map(|c| c.to_uppercase()).unwrap_or_else(|| "~".to_string()),
                     },
                 },
             },
